@@ -324,6 +324,99 @@ class Program:
                     st.append(y)
         return seen
 
+    def constructed_types(self, fn):
+        """ADT ids built by Aggregate statements in fn"""
+        c = getattr(self, "_ctypes", None)
+        if c is None:
+            c = self._ctypes = {}
+        r = c.get(fn.id)
+        if r is None:
+            r = set()
+            for b in fn.blocks:
+                if b["cl"]:
+                    continue
+                for st in b["s"]:
+                    rv = st[1]
+                    if rv[0] == "agg" and rv[1] == "adt":
+                        r.add(rv[2])
+            c[fn.id] = r
+        return r
+
+    def reach_rta(self, roots, stop=None, edge_filter=None):
+        """reachability with rapid type analysis: a virtual / unresolved trait call is linked only to
+        implementations whose Self type is constructed somewhere in the code reached so far.
+        returns (reachable fn ids, instantiated type ids, parent map for path reconstruction)"""
+        roots = [r.id if isinstance(r, Fn) else r for r in roots]
+        reach = set()
+        types = set()
+        parent = {}
+        pending_virtual = defaultdict(list)  # impl self type -> [(caller, impl fn id)]
+        work = list(roots)
+        for r in roots:
+            parent[r] = None
+
+        def add(caller, y):
+            if y not in parent:
+                parent[y] = caller
+            if y not in reach:
+                work.append(y)
+
+        while work:
+            x = work.pop()
+            if x in reach:
+                continue
+            reach.add(x)
+            f = self.fns[x]
+            if stop and stop(x):
+                continue
+            newt = self.constructed_types(f) - types
+            for t in newt:
+                types.add(t)
+                for (caller, y) in pending_virtual.pop(t, []):
+                    add(caller, y)
+            for bi, t in f.calls():
+                rk = t["rk"]
+                if rk in ("virtual", "unresolved"):
+                    for y in self.trait_impls.get(t["f"], []):
+                        if y not in self.fns:
+                            continue
+                        if edge_filter and not edge_filter(x, y):
+                            continue
+                        st = self.fns[y].impl_self
+                        if st is None or st in types or st not in self.adts:
+                            add(x, y)
+                        else:
+                            pending_virtual[st].append((x, y))
+                else:
+                    for y in self.call_targets(t):
+                        if edge_filter and not edge_filter(x, y):
+                            continue
+                        add(x, y)
+                for a in t["args"]:
+                    if a[0] == "fn" and a[1] in self.fns:
+                        add(x, a[1])
+            for c in self.children.get(x, []):
+                add(x, c)
+            for b in f.blocks:
+                if b["cl"]:
+                    continue
+                for st in b["s"]:
+                    rv = st[1]
+                    if rv[0] in ("use", "cast"):
+                        o = rv[1 if rv[0] == "use" else 2]
+                        if o[0] == "fn" and o[1] in self.fns:
+                            add(x, o[1])
+        return reach, types, parent
+
+    @staticmethod
+    def path_from(parent, goal):
+        p = []
+        x = goal
+        while x is not None:
+            p.append(x)
+            x = parent.get(x)
+        return p[::-1]
+
     def path(self, roots, goal_pred, stop=None):
         """shortest call path from any root to a fn satisfying goal_pred; list of ids or None"""
         E = self.edges()
